@@ -68,7 +68,7 @@ Clause(name, ok, tag, k) == ok \/ PrintT(<<"VIOL", name, k, tag>>)
 \* ---------------------------------------------------------------- ghosts
 G0 == [tr |-> -1, brought |-> 0, taken |-> 0, banks |-> <<>>, bankIds |-> {}, lastGc |-> 0, gids |-> {}, handLive |-> FALSE,
        handIds |-> <<>>, openBank |-> <<>>, openBlind |-> <<>>, openLabels |-> <<>>, lastParts |-> {}, afterBank |-> <<>>, afterIds |-> {},
-       missed |-> <<>>, missedIds |-> {}, ext |-> FALSE, extSetup |-> FALSE, openWin |-> {}, botCalls |-> {}, leavePending |-> {}, awaitFire |-> FALSE, closedBetween |-> FALSE, lastStatus |-> "none",
+       missed |-> <<>>, missedIds |-> {}, ext |-> FALSE, extSetup |-> FALSE, openWin |-> {}, botCalls |-> {}, leavePending |-> {}, awaitFire |-> FALSE, blindSinceFire |-> FALSE, closedBetween |-> FALSE, lastStatus |-> "none",
        cnt |-> <<>>, cntIds |-> {}, actEvents |-> <<>>, spyCalls |-> <<>>, inGate |-> "", blindSet |-> <<>>, blindSetInGate |-> FALSE,
        leftSince |-> {}, faults |-> 0, lastUpd |-> 0, kfMidLeave |-> FALSE,
        withholdSt |-> <<>>, settledSt |-> <<>>, openSt |-> <<>>, callQ |-> <<>>, pubH |-> <<>>, nospy |-> FALSE, ownTid |-> "", engineHand |-> <<>>, engineStatus |-> "none", lastGcSeen |-> 0, enginePlayers |-> 0, autoFails |-> 0, errEvents |-> 0, afterFire |-> FALSE, fireSt |-> <<>>]
@@ -104,7 +104,7 @@ Upd(gg, k) ==
                              !.closedBetween = @ \/ (t.ev \in {"ret:CloseTable", "ret:ReleaseTable"} /\ ~g1.handLive)]
         ELSE IF t.ev = "ret:SetUpTableGame" /\ t.res = "ok"    \* the competition layer replaced the engine's own set-up by one that cannot open a hand
              THEN [g1 EXCEPT !.extSetup = @ \/ Cardinality(Range(t.a.ids) \cap AliveInIds(st)) < 2]
-        ELSE IF t.ev = "ret:UpdateBlind" /\ t.res = "ok" THEN [g1 EXCEPT !.blindSet = t.a.blind, !.blindSetInGate = (g1.inGate # "")]
+        ELSE IF t.ev = "ret:UpdateBlind" /\ t.res = "ok" THEN [g1 EXCEPT !.blindSet = t.a.blind, !.blindSetInGate = (g1.inGate # ""), !.blindSinceFire = TRUE]
         ELSE IF t.ev = "parked" THEN [g1 EXCEPT !.inGate = t.a.kind]
         ELSE IF t.ev = "released" THEN [g1 EXCEPT !.inGate = ""]
         ELSE g1
@@ -159,7 +159,7 @@ Upd(gg, k) ==
       g7b == IF t.ev = "spy" /\ t.res = "fail" /\ t.a.kind \in {"readyall", "ante", "blinds", "next", "create"} THEN [g7 EXCEPT !.autoFails = @ + 1]
              ELSE IF t.ev = "cb:error" THEN [g7 EXCEPT !.errEvents = @ + 1] ELSE g7
       g7c == IF t.ev = "cb:updated" THEN [g7b EXCEPT !.engineHand = st.hand, !.engineStatus = st.status, !.lastGcSeen = st.gc, !.enginePlayers = Len(st.players)] ELSE g7b
-      g8 == IF t.ev = "hook" /\ t.a.kind = "continue.fire" THEN [g7c EXCEPT !.afterFire = TRUE, !.fireSt = <<st>>, !.extSetup = FALSE, !.awaitFire = FALSE]
+      g8 == IF t.ev = "hook" /\ t.a.kind = "continue.fire" THEN [g7c EXCEPT !.afterFire = TRUE, !.fireSt = <<st>>, !.extSetup = FALSE, !.awaitFire = FALSE, !.blindSinceFire = FALSE]
             ELSE IF t.ev = "hook" /\ t.a.kind = "continue.reset" THEN [g7c EXCEPT !.afterFire = FALSE, !.awaitFire = TRUE]
             ELSE IF ~IsRet(t) /\ t.ev \notin {"actorview", "actorsdone"} THEN [g7c EXCEPT !.afterFire = FALSE] ELSE g7c
   IN g8
@@ -381,7 +381,8 @@ ExpectOpen(st) == /\ st.status = "table_game_standby" /\ Cardinality(AliveInIds(
                   /\ BlindIsSet(st.blind) /\ ~BlindIsBreak(st.blind) /\ ~st.released
 \* the proviso ("at least two seated-in players have chips", no break) is taken when the continue handler ran
 C08_noWedge(t, gg) ==
-  (t.ev = "noopen" /\ ~gg.ext /\ ~gg.extSetup /\ Len(gg.fireSt) = 1 /\ gg.fireSt[1].gc = t.st.gc
+  \* (a blind update since the handler ran -- a break announced and called off again -- is the competition layer's business)
+  (t.ev = "noopen" /\ ~gg.ext /\ ~gg.extSetup /\ ~gg.blindSinceFire /\ Len(gg.fireSt) = 1 /\ gg.fireSt[1].gc = t.st.gc
    /\ ~ShouldPause(gg.fireSt[1]) /\ Cardinality(AliveInIds(gg.fireSt[1])) >= 2) => ~ExpectOpen(t.st)
 KF_RotationRefused(st) == \* the seat manager would refuse the rotation although two seated-in players have chips (KF-C04-waiting-newcomer)
   LET s == SmOf(st)  r == RotateF(s) IN s.inited /\ r.res # "ok" /\ AliveCount(s) >= 2
